@@ -131,7 +131,12 @@ class Source:
         blocks: list[Block] = []
         stack: list[int] = []
         boundary_stack = [0]  # position after last ; { } at current level
+        pdepth = 0            # depth of () and []: a `;` inside them (e.g. `[T; 3]`) is not a boundary
         for i, c in enumerate(msk):
+            if c in "([":
+                pdepth += 1
+            elif c in ")]":
+                pdepth = max(0, pdepth - 1)
             if c == "{":
                 b = Block(i, -1, boundary_stack[-1], stack[-1] if stack else -1)
                 blocks.append(b)
@@ -144,7 +149,7 @@ class Source:
                 blocks[bi].close = i
                 boundary_stack.pop()
                 boundary_stack[-1] = i + 1
-            elif c == ";":
+            elif c == ";" and pdepth == 0:
                 boundary_stack[-1] = i + 1
         if stack:
             raise LostAnchor(f"{self.path}: unbalanced braces at EOF")
@@ -365,7 +370,7 @@ class FnItem:
 
     # ------------------------------------------------------------ rendering
     def render(self, *, ret: str | None = None, clauses: str = "", loops: dict | None = None, loop_ends: dict | None = None,
-               loop_befores: dict | None = None,
+               loop_befores: dict | None = None, fn_end: str | None = None,
                inserts: list | None = None, subst: list | None = None, rename: str | None = None,
                drop_const=True, drop_unsafe=False, sig_subst: list | None = None) -> str:
         """Produce the Verus text of this fn.
@@ -419,6 +424,9 @@ class FnItem:
                     raise LostAnchor(f"{self.src.path}:{self.line} fn {self.name}: loop #{ordn} not found ({len(lp)} loops)")
                 close = _match(bmask, lp[ordn])
                 edits.append((close, "\n" + text.strip() + "\n"))
+        if fn_end:
+            # ghost text placed at the very end of the function body (before its closing brace)
+            edits.append((len(body) - 1, "\n" + fn_end.strip() + "\n"))
         for off, text in sorted(edits, reverse=True):
             body = body[:off] + text + body[off:]
         for pat, rep, cnt in (subst or []):
